@@ -108,7 +108,15 @@ func (Rewards) Property() string { return "C19" }
 
 func (Rewards) Check(t *explore.Transition) ([]V, bool) {
 	cur := t.Cur
-	if len(cur.Hist) == 0 || !c18IsValWorld(cur.W) || cur.Fault != nil {
+	if len(cur.Hist) == 0 || !c18IsValWorld(cur.W) {
+		return nil, false
+	}
+	if f := cur.Fault; f != nil {
+		// a distribution that does not add up ends the node in EndBlock (negative remainder) or in
+		// Commit (the coin checker): the reward of this block is never paid. Other faults are C07's.
+		if (f.Call == "EndBlock" || f.Call == "Commit") && f.Kind != "crash" && f.Kind != "hang" && len(cur.Steps) == len(cur.Hist) {
+			return []V{{Signature: fmt.Sprintf("distribution-ends-the-node|%s|%s", f.Call, f.Top), Detail: fmt.Sprintf("block %d of %s: %s", len(cur.Hist), cur.Hist.String(), f.String())}}, true
+		}
 		return nil, false
 	}
 	pre, post, last := cur.Pre, cur.Final(), cur.Last()
